@@ -6,3 +6,11 @@ import "verif/harness/mon"
 // entry points executed in a separate (possibly sanitizer-instrumented) process.
 var Registry = map[string]func(*mon.Run){}
 var Children = map[string]func(args []string) int{}
+
+// ChildRuns are check bodies runnable as `verif child <name>`; the name starts with the
+// property id in lower case (c13core, c18race, ...).
+var ChildRuns = map[string]func(*mon.Run){}
+
+func init() {
+	Registry["C11"] = C11
+}
